@@ -99,6 +99,11 @@ def cases(tier: str, seed: int) -> list[dict]:
                 for bdim in (1, 2, 3):
                     out.append({"load": "beam-line", "sim": "beam", "et": et, "dim": bdim, "theory": theory, "form": ["const", "array", "callable"][(k + r) % 3], "sel": "exact"})
                     k += 1
+                    if bdim > 1:
+                        # the same member at a generic inclination, loads given in the global axes
+                        out.append({"load": "beam-line", "sim": "beam", "et": et, "dim": bdim, "theory": theory, "form": ["const", "array", "callable"][(k + r) % 3], "sel": "inclined",
+                                    "incl": True})
+                        k += 1
     for i, c in enumerate(out):
         c["id"] = f"C09-{i:05d}-{c['load']}-{c['sim']}-{c['et']}-{c['form']}-{c['sel']}"
         c["index"] = i
@@ -448,7 +453,89 @@ def run_point(case, ctx, rng, simu, mesh, thickness):
     ctx.describe(f"point/{sim}/{et}", True, load="point", sim=sim, et=et, n_nodes=n, total=tot)
 
 
+def run_beam_inclined(case, ctx, rng):
+    """Line load, in global components, on a member at a generic inclination that does not start at the origin: total
+    force vector and total moment vector about the origin (nodal moments included) against the integrals of the density."""
+    et, bdim, theory, form = case["et"], case["dim"], case["theory"], case["form"]
+    key = f"C09/beam-line/{bdim}D/{et}/{theory}/inclined"
+    ctx.default_key = key
+    L = float(rng.uniform(1, 3))
+    nel = int(rng.integers(2, 5))
+    Q = gm.random_rotation(rng, bdim)
+    e1 = Q[:, 0]
+    p0 = np.zeros(3)
+    p0[:bdim] = rng.uniform(-1, 1, bdim)
+    ya = Q[:, 1]
+    if bdim == 3:
+        a = rng.uniform(0, np.pi)
+        ya = np.cos(a) * Q[:, 1] + np.sin(a) * Q[:, 2]
+    with ctx.monitored("no-exception", key + "/raised"):
+        simu, mesh, beam, line = bcm.make_member(bdim, et, theory, p0, p0 + L * e1, nel, 0.1, 0.2, 1e4, 0.3, yAxis=tuple(ya))
+    X = mesh.coord
+    used = np.unique(mesh.groupElem.connect.ravel())
+    unknowns = simu.Get_unknowns()
+    dof_n = simu.Get_dof_n()
+    trans = [u for u in unknowns if u in ("x", "y", "z")]
+    rots = [u for u in unknowns if u in ("rx", "ry", "rz")]
+    loaded = trans + (rots if case["index"] % 2 else [])     # every other case also carries distributed couples
+    comp = str(rng.choice(trans))
+    a_u = {u: float(rng.uniform(-3, 3)) for u in loaded}
+    b = float(rng.uniform(-2, 2)) * (form != "const")
+    sel = rng.permutation(used)
+    s_of = lambda P: (np.asarray(P) - p0) @ e1
+    if form == "const":
+        val = a_u[comp]
+    elif form == "array":
+        val = a_u[comp] + b * s_of(X[sel])
+    else:
+        val = lambda x, y, z: a_u[comp] + b * ((x - p0[0]) * e1[0] + (y - p0[1]) * e1[1] + (z - p0[2]) * e1[2])
+    order = [str(u) for u in rng.permutation(loaded)]
+    with ctx.monitored("no-exception", key + "/raised"):
+        with quiet():
+            simu.add_lineLoad(sel, [val if u == comp else a_u[u] for u in order], order)
+            fvec = simu.Bc_vector_Neumann(_pt(simu)).reshape(mesh.Nn, dof_n)
+    ax = {"x": 0, "y": 1, "z": 2, "rx": 0, "ry": 1, "rz": 2}
+    F0 = np.zeros(3)      # int q ds
+    F1 = np.zeros(3)      # int s q ds
+    C0 = np.zeros(3)      # int m ds
+    for u in loaded:
+        bu = b if u == comp else 0.0
+        if u in trans:
+            F0[ax[u]] += a_u[u] * L + bu * L**2 / 2
+            F1[ax[u]] += a_u[u] * L**2 / 2 + bu * L**3 / 3
+        else:
+            C0[ax[u]] += a_u[u] * L
+    M_exact = np.cross(p0, F0) + np.cross(e1, F1) + C0
+    Fn = np.zeros((mesh.Nn, 3))
+    Mn = np.zeros((mesh.Nn, 3))
+    for u in trans:
+        Fn[:, ax[u]] = fvec[:, unknowns.index(u)]
+    for u in rots:
+        Mn[:, ax[u]] = fvec[:, unknowns.index(u)]
+    F_got = Fn.sum(0)
+    M_got = np.cross(X, Fn).sum(0) + Mn.sum(0)
+    size = sum(abs(a_u[u]) for u in trans) * L + abs(b) * L**2 / 2
+    ctx.check("resultant-force", float(np.linalg.norm(F_got - F0)) / size, 1e-9, key + "/force-vector", comp=comp, form=form, got=F_got, want=F0,
+              direction=e1, couples=bool(case["index"] % 2))
+    arm = L + float(np.linalg.norm(p0))
+    if bdim == 2:
+        M_got, M_exact = M_got[2:], M_exact[2:]
+    ctx.check("resultant-moment", float(np.linalg.norm(M_got - M_exact)) / (size * arm + np.abs(C0).sum()), 1e-9, key + "/moment-vector", comp=comp, form=form,
+              got=M_got, want=M_exact, direction=e1, couples=bool(case["index"] % 2))
+    outside = np.setdiff1d(np.arange(mesh.Nn), used)
+    if len(outside):
+        ctx.check("stray-nodes-ignored", float(np.abs(fvec[outside]).max() / size), 1e-14, key + "/stray")
+    ctx.describe(f"beam-line/{bdim}D/{et}/{theory}/{form}/inclined", True, load="beam-line", et=et, theory=theory, comp=comp, form=form, L=L, inclined=True,
+                 couples=bool(case["index"] % 2))
+
+
 def run_beam(case, ctx, rng):
+    if case.get("incl"):
+        return run_beam_inclined(case, ctx, rng)
+    return run_beam_aligned(case, ctx, rng)
+
+
+def run_beam_aligned(case, ctx, rng):
     """Line load on a straight member: force and moment resultants about the first node (EB: Hermitian consistent nodal
     moments included through the rotational dofs)."""
     et, bdim, theory, form = case["et"], case["dim"], case["theory"], case["form"]
